@@ -228,7 +228,7 @@ def run(prop, root=None):
         else:
             ne0 += 1
     print(f'{prop} rewrites: {len(ev)} behaviour-preserving single-site rewrites (rename, if/else swap, mirrored comparison, folded negation, '
-          f'return temporary, guard/else): {ne0} silent, {ne2} not recognised (exit 2), {len(ev) - ne0 - ne2} reported')
+          f'return/argument temporary, guard/else, nested and, comprehension as loop, keyword argument): {ne0} silent, {ne2} not recognised (exit 2), {len(ev) - ne0 - ne2} reported')
     nb = nt = 0
     ncb = nct = nct2 = 0
     for (kind, label, _), (rc, detail) in zip(corpus, cres):
